@@ -612,7 +612,8 @@ pub struct State {
     pub origin: Vec<Option<usize>>,
     /// per current sheet: was it changed by a request (cell edit, structural edit)
     pub edited: Vec<bool>,
-    /// per current sheet: was it renamed (its own defined names follow the new name)
+    /// per current sheet: was it renamed (its own defined names follow the new name), or was a sheet removed since open
+    /// (defined names are re-numbered by remove_sheet)
     pub renamed: Vec<bool>,
     /// per current sheet: cells written by `edit` requests, with their text
     pub cells: Vec<BTreeMap<(u32, u32), String>>,
@@ -1377,6 +1378,12 @@ fn exec_op(out: &mut Out, st: &mut State, line: &str, a: &[&str], n: &dyn Fn(usi
                         st.edited.remove(i);
                         st.renamed.remove(i);
                         st.cells.remove(i);
+                        // since fix 39e32f7 remove_sheet re-numbers the localSheetId of the names scoped to later sheets and
+                        // drops those scoped to the removed one: the `names` section of the remaining sheets legitimately
+                        // differs from what it was at open (it is still compared lazy against eager on every dump)
+                        for r in st.renamed.iter_mut() {
+                            *r = true;
+                        }
                         (format!("ok {}", status(st.lazy.as_ref().unwrap())), true)
                     } else {
                         (r0, false)
